@@ -131,7 +131,29 @@ def run_case(i, rng, rec, tier, state):
         pq = points.points2d(rng, xy, nb)
         pts = o + pq[:, :1] * e1 + pq[:, 1:2] * e2
         if not c["tilted"]:
-            pts[:, 2] = Vs[0, 2]
+            # xy-plane: generate in absolute coordinates so that points share x or y with a vertex *exactly*
+            # (going through the shifted frame would lose the tie in the last bit)
+            pa = points.points2d(rng, Vs[:, :2], nb)
+            if c["lattice"]:
+                # lattice polygons: the whole (half-)integer grid of the bounding box - every point ties with vertices
+                lo_, hi_ = np.floor(Vs[:, :2].min(0)) - 1, np.ceil(Vs[:, :2].max(0)) + 1
+                step = 0.5 if (hi_ - lo_).max() <= 30 else 1.0
+                gx, gy = np.meshgrid(np.arange(lo_[0], hi_[0] + step, step), np.arange(lo_[1], hi_[1] + step, step))
+                grid = np.column_stack((gx.ravel(), gy.ravel()))
+                if len(grid) > 6000:
+                    grid = grid[rng.choice(len(grid), size=6000, replace=False)]
+                pa = np.vstack((pa, grid))
+                rec.cls("Polygon:lattice-grid")
+                # the same grid against the same polygon listed in the opposite direction and under the opposite normal
+                # (the monitors on is_inside judge these calls too)
+                g3 = np.column_stack((grid, np.full(len(grid), Vs[0, 2])))
+                for Vr, nr in ((Vs[::-1].copy(), np.asarray(s.normal, float)), (Vs.copy(), -np.asarray(s.normal, float))):
+                    try:
+                        cs.Polygon(Vr, normal=nr).is_inside(g3.copy())
+                    except Exception as e:
+                        rec.violation("Polygon.is_inside", f"Polygon.is_inside/raises-{type(e).__name__}", dict(info, exc=repr(e)[:200]))
+            pts = np.column_stack((pa, np.full(len(pa), Vs[0, 2])))
+            pq = np.column_stack(((pts - o) @ e1, (pts - o) @ e2))
             use2 = bool(np.all(Vs[:, 2] == 0)) and rng.random() < 0.5
         rec.cls("Polygon:" + ("ccw" if c["ccw"] else "cw"))
         rec.cls("Polygon:" + ("tilted" if c["tilted"] else "xy"))
